@@ -106,7 +106,10 @@ T P2_OpenMP(T x,
   T b = pi_noprint(sqrtx, threads);
 
   // \sum_{i=a+1}^{b} -(i - 1)
-  T sum = (a - 2) * (a + 1) / 2 - (b - 2) * (b + 1) / 2;
+  // a is a 64-bit integer, use type T in order to
+  // prevent integer overflows if a >= 2^31.5.
+  T pi_y = a;
+  T sum = (pi_y - 2) * (pi_y + 1) / 2 - (b - 2) * (b + 1) / 2;
   static_assert(pstd::is_signed<T>::value, "T must be signed integer type");
 
   int64_t xy = (int64_t)(x / max(y, 1));
